@@ -485,18 +485,17 @@ def float_pow_cases(tier):
 
 
 def float_mod_cases(tier):
-    """a % b on floats: the remainder with the sign of the divisor (Python's %), compared bit for bit where the quotient is not at a
-    rounding boundary"""
+    """a % b on floats: the remainder of floored division, with the sign of the divisor and an error only for a zero divisor
+    (the book); reference = fmod corrected by one addition of the divisor (which is what Python's % does), bit for bit"""
     from ..table import ERR, UNSPEC
     from ..core import xfloat
-    vals = [0.0, 1.0, -1.0, 2.0, -2.0, 4.0, -4.0, 0.5, -0.5, 5.0, -5.0, 7.5, -7.5, 1e300, -1e300, 3.0, -3.0]
+    vals = [0.0, 1.0, -1.0, 2.0, -2.0, 4.0, -4.0, 0.5, -0.5, 5.0, -5.0, 7.5, -7.5, 1e300, -1e300, 3.0, -3.0,
+            9e307, -9e307, 1e308, -1e308, 1.7976931348623157e308, -1.7976931348623157e308, 1e-20, -1e-20, 5e-324, -5e-324, 2.2250738585072014e-308, 0.1, -0.3, 1e16, 1e16 + 2]
     out = []
     for a in vals:
         for b in vals:
             if b == 0:
                 exp = ERR
-            elif a != 0 and abs(a) < abs(b) * 1e-9:
-                exp = UNSPEC
             else:
                 exp = a % b
                 if exp == 0:
